@@ -233,3 +233,50 @@ def rooms_2x2(shape, layout, rng):
           props=['C13', 'C08'])
 def rooms_1x3(shape, layout, rng):
     rooms_contract(shape, rng)
+
+
+# ---------------------------------------------------------------------------------------------------
+# memory_rooms for fixed small layouts and counts (symbolic shape, symbolic colour set, every outcome)
+def memory_rooms_contract(shape, colors, num_beacons, num_exits, rng):
+    requires(shape.height >= 1 and shape.width >= 1)
+    ensures('only-valueerror', lambda: only_valueerror())
+    ensures('rejects-none-colour', lambda: implies(Color.NONE in colors, lambda: raised(ValueError)))
+    ensures('well-formed', lambda: implies(returned(), lambda: well_formed(result(), shape)))
+    def inventory():
+        g = result().grid
+        return (
+            # exits have pairwise distinct colours
+            forall_cells(g, lambda c: forall_cells(g, lambda d: implies(
+                isinstance(g[c], Exit) and isinstance(g[d], Exit) and c != d, lambda: g[c].color is not g[d].color)))
+            # beacons are all of one colour, which is the colour of an exit
+            and forall_cells(g, lambda b: forall_cells(g, lambda b2: implies(
+                isinstance(g[b], Beacon) and isinstance(g[b2], Beacon), lambda: g[b].color is g[b2].color)))
+            and forall_cells(g, lambda b: implies(isinstance(g[b], Beacon), lambda: exists_cells(
+                g, lambda e: isinstance(g[e], Exit) and g[e].color is g[b].color)))
+            # only the requested colours are used, nothing but walls, floor, beacons and exits
+            and forall_cells(g, lambda c: implies(isinstance(g[c], Exit) or isinstance(g[c], Beacon), lambda: g[c].color in colors))
+            and forall_cells(g, lambda c: isinstance(g[c], Wall) or isinstance(g[c], Floor) or isinstance(g[c], Exit)
+                             or isinstance(g[c], Beacon))
+            and exists_cells(g, lambda b: isinstance(g[b], Beacon))
+            and exists_cells(g, lambda e: isinstance(g[e], Exit)))
+    ensures('colour-discipline', lambda: implies(returned(), inventory))
+    def counts():
+        g = result().grid
+        return (sum(1 for p in g.area.positions() if isinstance(g[p], Exit)) == num_exits
+                and sum(1 for p in g.area.positions() if isinstance(g[p], Beacon)) == num_beacons)
+    ensures_native('the-requested-numbers-of-exits-and-beacons', lambda: implies(returned(), counts))
+    ensures('independent-of-hash-order', lambda: effects('set_order') == 0)
+
+
+@contract(target=RS + 'memory_rooms',
+          args={'shape': 'Shape', 'layout': ('const', (1, 1)), 'colors': ('distinct-set', 'Color', 3),
+                'num_beacons': ('const', 1), 'num_exits': ('const', 2), 'rng': 'Rng'}, kwonly=['rng'], props=['C13', 'C02', 'C08'])
+def memory_rooms_1x1(shape, layout, colors, num_beacons, num_exits, rng):
+    memory_rooms_contract(shape, colors, num_beacons, num_exits, rng)
+
+
+@contract(target=RS + 'memory_rooms',
+          args={'shape': 'Shape', 'layout': ('const', (2, 2)), 'colors': ('distinct-set', 'Color', 3),
+                'num_beacons': ('const', 2), 'num_exits': ('const', 3), 'rng': 'Rng'}, kwonly=['rng'], props=['C13', 'C02', 'C08'])
+def memory_rooms_2x2(shape, layout, colors, num_beacons, num_exits, rng):
+    memory_rooms_contract(shape, colors, num_beacons, num_exits, rng)
